@@ -31,7 +31,7 @@ BOUND = {
 }
 TIME_CAP = {"quick": 240, "thorough": 3000}
 
-KINDS = ["f8", "i8", "u1", "b1", "str", "U", "D", "us", "ns", "td", "obj"]
+KINDS = ["f8", "f4", "i8", "u1", "b1", "str", "U", "D", "us", "ns", "td", "obj"]
 TRIPLES = [("f8", "str", "D"), ("str", "f8", "i8"), ("D", "b1", "str"), ("i8", "u1", "f8"), ("U", "obj", "us"),
            ("obj", "D", "U"), ("b1", "str", "f8"), ("us", "U", "i8"), ("str", "str", "str"), ("f8", "f8", "f8"),
            ("u1", "D", "obj"), ("D", "us", "b1")]
